@@ -49,18 +49,18 @@ Logged(ln, a, e) ==
                    IF HasKind(e, ln.dims[i].k) THEN e.dims[PosOf(e, ln.dims[i].k)].idx ELSE "none")],
    name |-> NameOf(ln.name), dt |-> e.dt,
    \* (a result whose length differs from its grid's count is GridDimsConsistent's business, not an order question)
-   al |-> IF ln.op \in SelectOps /\ Len(ln.src) = Len(ln.sel) THEN a.al /\ ln.src = ln.sel ELSE a.al]
+   al |-> IF B(ln.op) \in SelectOps /\ Len(ln.src) = Len(ln.sel) THEN a.al /\ ln.src = ln.sel ELSE a.al]
 
-Ended(ln, o, a) == \/ ln.out = "xr_refused" /\ o.op \notin OwnOps
+Ended(ln, o, a) == \/ ln.out = "xr_refused" /\ B(o.op) \notin OwnOps
                    \/ ln.out = "refused" /\ IsFree(o, a)
 
 (* ---- the clauses of one step -------------------------------------------- *)
 \* (operator arguments are evaluated once by TLC, LET definitions at every use: hence the two levels)
 ClausesOf(ln, a, G, o, free, e, L, val) ==
-  [ Raises   |-> ln.out # "raised" /\ (ln.out = "refused" => free) /\ (ln.out = "xr_refused" => o.op \notin OwnOps),
+  [ Raises   |-> ln.out # "raised" /\ (ln.out = "refused" => free) /\ (ln.out = "xr_refused" => B(o.op) \notin OwnOps),
     IsUx     |-> val => IsUxArr(L),
     SameGrid |-> (val /\ IsUxArr(L)) => IF free THEN L.grid \in {a.grid, NewHandle(G)} ELSE L.grid = e.grid,
-    DimsEffect |-> val => IF o.op \in FreeOps
+    DimsEffect |-> val => IF B(o.op) \in FreeOps
                           THEN /\ Len(L.dims) = Len(a.dims)
                                /\ \A i \in 1..Len(a.dims) : /\ L.dims[i].k = a.dims[i].k
                                                             /\ i \in LeadIdx(a) => L.dims[i].n = a.dims[i].n
@@ -71,7 +71,7 @@ ClausesOf(ln, a, G, o, free, e, L, val) ==
     DataFollowsGrid |-> (val /\ IsUxArr(L)) => L.al,
     \* a deep copy's grid: equal to the source's, another dataset object, no variable sharing memory with any
     \* variable of the source's (mem), and an in-place edit of either grid's arrays does not show in the other (leak)
-    DeepCopyIndependent |-> (val /\ o.op \in CopyOps) =>
+    DeepCopyIndependent |-> (val /\ B(o.op) \in CopyOps) =>
                                /\ a.grid \in Range(ln.g.eq) /\ Range(ln.g.share) = {}
                                /\ Range(ln.g.mem) = {} /\ Range(ln.g.leak) = {},
     Name     |-> (val /\ ~free) => e.name = "free" \/ NameOf(ln.name) = e.name,
